@@ -775,8 +775,8 @@ class DAG(BaseDAG[P, RVDAG]):
                     UsageExecNode(to_subdag_id(uxn.id), uxn.key) for uxn in exec_node.args
                 ]
                 values["kwargs"] = {
-                    to_subdag_id(id_): UsageExecNode(to_subdag_id(uxn.id), uxn.key)
-                    for id_, uxn in exec_node.kwargs.items()
+                    name: UsageExecNode(to_subdag_id(uxn.id), uxn.key)
+                    for name, uxn in exec_node.kwargs.items()
                 }
                 # asdict turned the activation reference into a dict: restore it for every kind of ExecNode
                 if exec_node.active is not None:
